@@ -220,7 +220,7 @@ def set_ok(cs: List[bool], xs: List[int], ys: List[int], g: int, present: List[b
 
 def conditions(tier, seed):
     th = tier == "thorough"
-    n = 300 if th else 60
+    n = 300 if th else 40
     to = 120 if th else 25
     out = []
     for i in range(n):
